@@ -348,8 +348,16 @@ def _pool_call(arg):
         return ("harness", "%s\n%s" % (ex, traceback.format_exc()))
 
 
+def _init_worker():
+    # workers must not inherit the main process' signal handlers or cleanup
+    for s_ in (signal.SIGTERM, signal.SIGINT, signal.SIGHUP):
+        signal.signal(s_, signal.SIG_DFL)
+
+
 def pmap(fn, args, jobs=None, chunksize=1):
-    """Ordered parallel map with fork-start processes; yields results."""
+    """Ordered parallel map over fork-started worker processes; yields
+    results.  A worker that dies (killed, out of memory) breaks the pool and
+    raises HarnessError instead of hanging the check."""
     global _POOL_FN
     args = list(args)
     if not args:
@@ -360,12 +368,37 @@ def pmap(fn, args, jobs=None, chunksize=1):
             yield fn(a)
         return
     _POOL_FN = fn
+    import concurrent.futures as cf
     ctx = multiprocessing.get_context("fork")
-    with ctx.Pool(jobs) as pool:
-        for st, val in pool.imap(_pool_call, args, chunksize):
+    ex = cf.ProcessPoolExecutor(max_workers=jobs, mp_context=ctx, initializer=_init_worker)
+    try:
+        # bounded submission window keeps memory flat for large case lists
+        window = jobs * 4
+        pending = []
+        it = iter(args)
+        done = False
+        while True:
+            while not done and len(pending) < window:
+                try:
+                    a = next(it)
+                except StopIteration:
+                    done = True
+                    break
+                pending.append(ex.submit(_pool_call, a))
+            if not pending:
+                break
+            f = pending.pop(0)
+            try:
+                st, val = f.result(timeout=3600)
+            except cf.process.BrokenProcessPool:
+                raise HarnessError("a worker process died (killed or out of memory)")
+            except cf.TimeoutError:
+                raise HarnessError("a case did not finish within an hour")
             if st != "ok":
                 raise HarnessError(val)
             yield val
+    finally:
+        ex.shutdown(wait=False, cancel_futures=True)
 
 
 def main_wrapper(fn):
@@ -375,6 +408,13 @@ def main_wrapper(fn):
     except HarnessError as ex:
         sys.stderr.write("HARNESS FAILURE: %s\n" % ex)
         rc = EXIT_HARNESS
+        if "worker process died" in str(ex) and not os.environ.get("VERIF_RETRIED"):
+            # something outside the check killed a worker: run the whole check once more
+            sys.stderr.write("re-running the check once\n")
+            sys.stderr.flush(); sys.stdout.flush()
+            os.environ["VERIF_RETRIED"] = "1"
+            atexit._run_exitfuncs()
+            os.execv(sys.executable, [sys.executable] + sys.argv)
     except SystemExit:
         raise
     except Exception:
